@@ -193,7 +193,7 @@ impl Typescript {
             Ok(choice_template(
                 &format_comments(&tld.comments),
                 &to_jer_identifier(&tld.name),
-                &format_choice_options(&choice),
+                &format_choice_options(&choice, self.extensibility_implied),
             ))
         } else {
             Err(GeneratorError::new(
@@ -212,7 +212,7 @@ impl Typescript {
             ASN1Type::Sequence(ref seq) | ASN1Type::Set(ref seq) => Ok(sequence_or_set_template(
                 &format_comments(&tld.comments),
                 &to_jer_identifier(&tld.name),
-                &format_sequence_or_set_members(seq),
+                &format_sequence_or_set_members(seq, self.extensibility_implied),
             )),
             _ => Err(GeneratorError::new(
                 Some(ToplevelDefinition::Type(tld)),
@@ -231,7 +231,7 @@ impl Typescript {
                 Ok(sequence_or_set_of_template(
                     &format_comments(&tld.comments),
                     &to_jer_identifier(&tld.name),
-                    &type_to_tokens(&se_of.element_type),
+                    &type_to_tokens(&se_of.element_type, self.extensibility_implied),
                 ))
             }
             _ => Err(GeneratorError::new(
